@@ -6,7 +6,7 @@ import traceback
 
 class Rec(object):
     """ledger look-alike that records the calls (all arguments must be picklable)"""
-    METHODS = ('ok', 'fail', 'undecide', 'function', 'assume', 'trust', 'bounded_item', 'solver_time', 'canary', 'error', 'guard_stats')
+    METHODS = ('ok', 'fail', 'undecide', 'function', 'assume', 'trust', 'bounded_item', 'solver_time', 'canary', 'error', 'guard_stats', 'attr_reads')
 
     def __init__(self, tier='quick', known=()):
         self.calls = []
@@ -35,6 +35,8 @@ def _run(arg):
     except Exception:
         rec.error('%s: %s' % (item, traceback.format_exc()[-1500:]))
     rec.guard_stats(numguard.STATS['checked'] - before['checked'], numguard.STATS['skipped'] - before['skipped'])
+    from . import pysym
+    rec.attr_reads({k: set(v) for k, v in pysym.ATTR_READS.items()})
     return item, rec.calls
 
 
